@@ -185,21 +185,21 @@ func (ex *Explorer) AtomLiteral(id uint64) (string, bool) {
 
 // Run is the state of one path execution.
 type Run struct {
-	Ex        *Explorer
-	Sol       *Solver
-	trace     []Decision
-	Decisions []Decision
-	pos       int
-	symN      int
-	nameN     int
-	objN      int
-	facts     map[string]bool
-	Syms      []SymDecl
+	Ex         *Explorer
+	Sol        *Solver
+	trace      []Decision
+	Decisions  []Decision
+	pos        int
+	symN       int
+	nameN      int
+	objN       int
+	facts      map[string]bool
+	Syms       []SymDecl
 	transcript strings.Builder
-	baseDepth int
-	Steps     int64
-	depth     int
-	Globals   map[*ssa.Global]*Value
+	baseDepth  int
+	Steps      int64
+	depth      int
+	Globals    map[*ssa.Global]*Value
 	// User is free for the harness driver (call logs etc.).
 	User interface{}
 	// Observations collected by verifObserve and friends.
@@ -208,9 +208,9 @@ type Run struct {
 	WriteHook func(slot *Value)
 	// GlobalHook, when set, sees every access to a package-level variable.
 	GlobalHook func(g *ssa.Global)
-	Trunc     bool
-	Merges    int
-	ufs       map[string]bool
+	Trunc      bool
+	Merges     int
+	ufs        map[string]bool
 }
 
 type SymDecl struct {
